@@ -168,6 +168,8 @@ def gen_cases(tier, rng):
     for text, c in tb.fix_families()[::(2 if quick else 1)]:
         cx = "-" if c is None else tb.ctx(c[1], c[0])
         cases.append((tb.case_txt([text], tb.opts(s=len(text) % 2), cx), "tb-fix-families"))
+    for text, c in tb.deep_family(tier):
+        cases.append((tb.case_txt([text], tb.opts(s=len(text) % 2)), "tb-deep"))
     for text in tb.cdata_edge_texts()[::(3 if quick else 1)]:
         cases.append((tb.case_txt([text], tb.opts(s=0)), "tb-cdata"))
     for line, tag in tb.random_docs(rng, 3000 if quick else 80000):
